@@ -14,7 +14,7 @@ from . import build
 from .terms import Term, canon, from_json, to_json
 
 BLANK = {"e": "", "F": [], "cleanup": True, "fixed": [], "f": "", "kwargs": [], "results": [], "loaded": [], "cls": "", "msg": "", "args": [], "attributed": False, "disk": [], "linputs": [], "ldefaults": [], "shapes": [],
-         "storage_in": [], "storage_out": [], "mapspecs_in": [], "mapspecs_out": [], "proc": ""}
+         "storage_in": [], "storage_out": [], "mapspecs_in": [], "mapspecs_out": [], "proc": "", "fixedraw": []}
 
 
 def ev(**kw) -> dict:
@@ -127,11 +127,12 @@ def _later_than_failed(desc: dict, fd: dict, fails: list[dict]) -> bool:
 
 
 def do_map(pipeline, desc: dict, inputs_py: dict, *, run_folder: str | None, storage="dict", parallel=False,
-           cleanup=True, fixed_indices=None, fixed_resolved: list | None = None, F: list[str] | None = None,
+           cleanup=True, fixed_indices=None, fixed_resolved: list | None = None, fixed_raw: list | None = None,
+           F: list[str] | None = None,
            executor=None, output_names=None, internal_shapes=None, load=True, settle=None, **extra) -> tuple[list[dict], Any]:
     """One map run -> (events, results or exception)."""
     fnames = F if F is not None else [fd["name"] for fd in desc["funcs"]]
-    events = [ev(e="begin", F=fnames, cleanup=cleanup, fixed=fixed_resolved or [])]
+    events = [ev(e="begin", F=fnames, cleanup=cleanup, fixed=fixed_resolved or [], fixedraw=fixed_raw or [])]
     start = len(build.LOG)
     buf = io.StringIO()
     try:
@@ -146,8 +147,8 @@ def do_map(pipeline, desc: dict, inputs_py: dict, *, run_folder: str | None, sto
         events += evs
         kind = "raise" if any(e["e"] == "fail" for e in evs) else "reject" if not evs else "error"
         if kind == "reject":
-            events = [ev(e="reject", F=fnames, cleanup=cleanup, fixed=fixed_resolved or [], cls=type(ex).__name__,
-                         msg=str(ex)[:300])]
+            events = [ev(e="reject", F=fnames, cleanup=cleanup, fixed=fixed_resolved or [], fixedraw=fixed_raw or [],
+                         cls=type(ex).__name__, msg=str(ex)[:300])]
         else:
             events.append(raise_event(kind, ex, evs, run_folder, desc, persistent=(storage == "file_array")))
         return events, ex
